@@ -74,7 +74,8 @@ def oracle(ck, sid, lines, out, m, info):
 
     def fail(code, text):
         fails.append((code, text))
-    pending_enq = []
+    lost_since_up = {}     # link key -> frames lost anywhere on the line since that link was reported AVAILABLE
+    up_seen = set()
     it = iter([l for l in lines if l.split()[0] in ("enq1", "enq2", "msend")])
     addr_to_i = {L.saddr(al, i): i for i in range(ns)}
     for e in ev:
@@ -102,6 +103,9 @@ def oracle(ck, sid, lines, out, m, info):
                 lk.q.append(a)
         elif e[0] == "tx":
             _, st, n, f, lost, dup = e
+            if lost:
+                for k in lost_since_up:
+                    lost_since_up[k] += 1
             if L.wf_frame(f, al) or f == b"\xe5" or f[0] != 0x68:
                 continue
             c, a, d = L.fields(f, al)
@@ -141,7 +145,13 @@ def oracle(ck, sid, lines, out, m, info):
             lk = links[(dr, i, cls)]
             lk.count[d] = lk.count.get(d, 0) + 1
             lk.order.append(d)
+        elif e[0] in ("mls", "sls") and e[2] == 3:
+            lost_since_up[(e[0], e[1])] = 0
+            up_seen.add((e[0], e[1]))
         elif e[0] in ("mls", "sls") and e[2] == 1:
+            if (e[0], e[1]) in up_seen and lost_since_up.get((e[0], e[1]), 1) == 0:
+                fail("resume", "link %s reported in error although no frame was lost since it was reported available: communication does not resume after re-establishment" % (
+                    "of the master to address %d" % e[1] if e[0] == "mls" else "of slave %d" % e[1]))
             # link reported in error: the frame in flight on that link may be lost or repeated
             for (dr, i, cls), lk in links.items():
                 hit = False
